@@ -216,6 +216,58 @@ pub fn impl_answer(case: &Case) -> String {
             });
             r.unwrap_or_else(|_| "(panic)".to_string())
         }
+        "history" => {
+            let spec = CtxSpec::from_sx(&payload[0]).expect("bad ctx");
+            let srcs: Vec<String> = case.src.clone().unwrap_or_default().split('\u{1}').map(String::from).collect();
+            let log: Log = Arc::new(Mutex::new(vec![]));
+            let r = quietly(|| {
+                catch_unwind(AssertUnwindSafe(|| {
+                    spec.with_context(&log, |ctx| {
+                        let names: Vec<String> = spec.vars.iter().chain(spec.scopes.iter().flatten()).map(|(n, _)| n.clone()).collect();
+                        let snapshot = |ctx: &cel_interpreter::Context| -> Vec<String> { names.iter().map(|n| ctx.get_variable(n.clone()).map(|v| value_to_sx(&v).to_text()).unwrap_or_else(|_| "none".into())).collect() };
+                        let before = snapshot(ctx);
+                        let mut out = String::from("(history");
+                        let mut verdict = "pure".to_string();
+                        let mut kept: Vec<(Value, String)> = vec![];
+                        let progs: Vec<Option<Program>> = srcs.iter().map(|s| Program::compile(s).ok()).collect();
+                        for (i, p) in progs.iter().enumerate() {
+                            let Some(p) = p else {
+                                out.push_str(" (res (compile-error) (log))");
+                                continue;
+                            };
+                            log.lock().unwrap().clear();
+                            let r1 = p.execute(ctx);
+                            let l1 = log_to_sx(&log.lock().unwrap()).to_text();
+                            out.push_str(&format!(" (res {} {})", result_to_sx(&r1).to_text(), l1));
+                            // executing again against the same context gives an equal result
+                            log.lock().unwrap().clear();
+                            let r2 = p.execute(ctx);
+                            if result_to_sx(&r1).to_text() != result_to_sx(&r2).to_text() {
+                                verdict = format!("(impure repeat-differs {i})");
+                            }
+                            // the context and every value obtained earlier are unchanged
+                            if snapshot(ctx) != before {
+                                verdict = format!("(impure context-changed-by {i})");
+                            }
+                            for (v, txt) in &kept {
+                                if value_to_sx(v).to_text() != *txt {
+                                    verdict = format!("(impure earlier-result-changed-by {i})");
+                                }
+                            }
+                            if let Ok(v) = r1 {
+                                let t = value_to_sx(&v).to_text();
+                                kept.push((v, t));
+                            }
+                        }
+                        out.push(' ');
+                        out.push_str(&verdict);
+                        out.push(')');
+                        out
+                    })
+                }))
+            });
+            r.unwrap_or_else(|_| "(panic)".to_string())
+        }
         "evalpair" => {
             let spec = CtxSpec::from_sx(&payload[0]).expect("bad ctx");
             let srcs: Vec<String> = case.src.clone().unwrap_or_default().split('\u{1}').map(String::from).collect();
@@ -324,6 +376,15 @@ pub fn run_case(spec: &CtxSpec, src: &str) -> Case {
 
 pub fn compile_case(src: &str) -> Case {
     Case::new("compile", crate::sx::hex(src.as_bytes()))
+}
+
+/// A history of programs executed one after the other against one context.
+pub fn history_case(spec: &CtxSpec, srcs: &[String]) -> Option<Case> {
+    let p = |s: &str| quietly(|| catch_unwind(|| cel_parser::Parser::new().parse(s))).ok()?.ok();
+    let asts: Option<Vec<String>> = srcs.iter().map(|s| p(s).map(|a| expr_to_sx(&a).to_text())).collect();
+    let mut c = Case::new("history", format!("{} {}", spec.to_sx().to_text(), asts?.join(" ")));
+    c.src = Some(srcs.join("\u{1}"));
+    Some(c)
 }
 
 /// Two programs against one context (both call styles of a function).
